@@ -1263,7 +1263,7 @@ namespace Goderive.Plumb
 theorem prefix_false_of_usable_name {cfg : Cfg} (hpf : cfg.prefixFixed = true) {n : Name}
     (h : unusable cfg n = false) : paramPrefix.isPrefixOf n = false ∧ innerPrefix.isPrefixOf n = false := by
   simp only [unusable, hpf, Bool.true_and, Bool.or_eq_false_iff] at h
-  exact ⟨h.1.2.1, h.1.2.2⟩
+  exact ⟨h.1.1.2.1, h.1.1.2.2⟩
 
 /-- outer and inner list of uncurry no longer clash through the renaming itself: a name the two
 effective lists share is a name the USER wrote in both (and that was not renamed) -/
